@@ -75,7 +75,7 @@ class Provenance:
         self_tags: "Tags | None" = None,
     ) -> None:
         """source(call, tags of the positional arguments) -> tags of the call's result (None: not a source);
-        attr_tags(attribute expression) -> additional tags of an attribute read;
+        attr_tags(attribute expression[, tags of the object it is read from]) -> additional tags of an attribute read;
         assume(if statement, state on its entry) -> True / False if the test is known to have that value (only that branch is
         followed), None otherwise."""
         self.fn = fn
@@ -321,16 +321,22 @@ class Provenance:
         if isinstance(e, ast.Name):
             return st.get(e.id, EMPTY)
         if isinstance(e, ast.Attribute):
-            extra = frozenset(self.attr_tags(e) or ()) if self.attr_tags is not None else EMPTY
             fk = field_key(e)
+            base = None
             if fk is not None and fk not in st:
-                got = self._self_property(fk[5:], st)
-                if got is not None:
-                    return got | extra
-            if fk is not None:
+                base = self._self_property(fk[5:], st)
+            if base is None and fk is not None:
                 self._ev(e.value, st) if not isinstance(e.value, ast.Name) else None
-                return self.get(st, fk) | extra
-            return self._ev(e.value, st) | extra
+                base = self.get(st, fk)
+            if base is None:
+                base = self._ev(e.value, st)
+            extra = EMPTY
+            if self.attr_tags is not None:
+                try:
+                    extra = frozenset(self.attr_tags(e, base) or ())  # type: ignore[call-arg]
+                except TypeError:
+                    extra = frozenset(self.attr_tags(e) or ())
+            return base | extra
         if isinstance(e, ast.Call):
             recv = EMPTY
             if isinstance(e.func, ast.Attribute):
@@ -352,7 +358,7 @@ class Provenance:
             out = recv
             for v in args:
                 out |= v
-            if self.passes is not None and out and any(not t.startswith(("pre:", "via:", "acc:")) for t in out):
+            if self.passes is not None and out and any(not t.startswith(("pre:", "via:", "acc:", "raw:")) for t in out):
                 fname = e.func.id if isinstance(e.func, ast.Name) else e.func.attr if isinstance(e.func, ast.Attribute) else "?"
                 if fname == "filter":
                     out |= {"via:filter:filter()"}
@@ -396,7 +402,7 @@ class Provenance:
             if isinstance(e, ast.DictComp):
                 return self._ev(e.key, inner) | self._ev(e.value, inner)
             out = self._ev(e.elt, inner)
-            if self.passes is not None and any(not t.startswith(("pre:", "via:", "acc:")) for t in out):
+            if self.passes is not None and any(not t.startswith(("pre:", "via:", "acc:", "raw:")) for t in out):
                 ifs = [c for g in e.generators for c in g.ifs]
                 if ifs:
                     out |= {"via:filter:" + " ".join(ast.unparse(ifs[0]).split())[:80]}
@@ -413,7 +419,7 @@ class Provenance:
             return out
         if isinstance(e, ast.BinOp):
             out = self._ev(e.left, st) | self._ev(e.right, st)
-            if self.passes is not None and not isinstance(e.op, (ast.Add, ast.BitOr)) and any(not t.startswith(("pre:", "via:", "acc:")) for t in out):
+            if self.passes is not None and not isinstance(e.op, (ast.Add, ast.BitOr)) and any(not t.startswith(("pre:", "via:", "acc:", "raw:")) for t in out):
                 out |= {"via:op"}
             return out
         if isinstance(e, ast.UnaryOp):
